@@ -219,7 +219,39 @@ JUXTAPOSED = [
 ]
 
 
+# statements that may stand in parentheses like any expression
+PARENTHESISED = [
+    ("value-less-return",
+     "def f(x) do if x then return; 1 end; [f(TRUE), f(FALSE)]",
+     "def f(x) do if x then (return); 1 end; [f(TRUE), f(FALSE)]"),
+    ("if-with-value-less-return",
+     "def f(x) do if x then return; 1 end; [f(TRUE), f(FALSE)]",
+     "def f(x) do (if x then return); 1 end; [f(TRUE), f(FALSE)]"),
+    ("lambda-body-value-less-return", "def f() return; f()",
+     "def f() (return); f()"),
+    ("return-before-else", "def f(x) if x then do return end else 5; f(TRUE)",
+     "def f(x) if x then return else 5; f(TRUE)"),
+    ("return-value", "def f() return 7; f()", "def f() (return (7)); f()"),
+    ("break", "for i in [1, 2] do break end", "for i in [1, 2] do (break) end"),
+    ("continue", "def r = []; for i in [1, 2] do continue; append(r, i) end; r",
+     "def r = []; for i in [1, 2] do (continue); append(r, i) end; r"),
+    ("error", "do error 'x' catch 'x' 1 end", "do (error ('x')) catch ('x') 1 end"),
+    ("def", "def a = 1; a", "(def a = (1)); (a)"),
+    ("assignment", "def a = 1; a = 2; a", "def a = 1; (a = 2); a"),
+    ("block", "do 1; 2 end", "(do (1); (2) end)"),
+]
+
+
 def part_juxtaposed(part):
+    for name, canonical, text in PARENTHESISED:
+        part.count()
+        part.distinct()
+        part.cls("parenthesised:" + name, text)
+        f = judge(canonical, outcome(canonical), text, outcome(text), {})
+        if f is not None:
+            f.signature = "C14|parenthesised-statement|" + name
+        part.collect(f, {"kind": "layout", "canonical": canonical,
+                         "text": text})
     for name, canonical, text in JUXTAPOSED:
         part.count()
         part.distinct()
